@@ -740,6 +740,12 @@ def c20(run):
     r16_tables.tables_c20(run)
     r7_binary.check_dunder_deps(run, run.prog.func('spatialvector:SpatialInertia.__add__'))
     r3_ctor.run_r3(run, classes=['SpatialVector', 'SpatialVelocity', 'SpatialAcceleration', 'SpatialForce', 'SpatialMomentum', 'SpatialInertia'])
+    # multi-valued operands: .A of a spatial-vector operand is a list when it holds several vectors
+    prog = run.prog
+    for key, extra in (('spatialvector:SpatialVector.__rmul__', ()), ('spatialvector:SpatialVector.__neg__', ()),
+                       ('spatialvector:SpatialVector.__add__', ('right',)), ('spatialvector:SpatialVector.__sub__', ('right',)),
+                       ('spatialvector:SpatialInertia.__mul__', ('right',)), ('spatialvector:SpatialInertia.__rmul__', ('left',))):
+        r8_accessors.check_accessor(run, prog.func(key), extra_objs=extra)
     _scope_rules(run, 'C20')
     run.floor('R16', 14)
     run.explanation = ('Spatial vectors, table and guard part: + and - have a same-class guard and an equal-length guard that dominate '
